@@ -45,6 +45,15 @@ pub struct RequestBuilder<B = body::Empty> {
     base_settings: Arc<BaseSettings>,
 }
 
+#[cfg(feature = "verif-hooks")]
+impl<B> RequestBuilder<B> {
+    /// Effective settings of this request (verification hook).
+    #[doc(hidden)]
+    pub fn verif_settings(&self) -> crate::verif_hooks::SettingsSnapshot {
+        crate::verif_hooks::snapshot(&self.base_settings)
+    }
+}
+
 impl RequestBuilder {
     /// Create a new `RequestBuilder` with the base URL and the given method.
     ///
